@@ -57,13 +57,23 @@ type EngineDef struct {
 }
 
 func loadEngines() ([]*EngineDef, error) {
-	b, err := os.ReadFile(filepath.Join(verifDir, "engines.json"))
-	if err != nil {
-		return nil, err
-	}
+	// one engine.json per harness directory
+	files, _ := filepath.Glob(filepath.Join(verifDir, "harness", "*", "engine.json"))
+	sort.Strings(files)
 	var es []*EngineDef
-	if err := json.Unmarshal(b, &es); err != nil {
-		return nil, fmt.Errorf("engines.json: %v", err)
+	for _, f := range files {
+		b, err := os.ReadFile(f)
+		if err != nil {
+			return nil, err
+		}
+		e := &EngineDef{}
+		if err := json.Unmarshal(b, e); err != nil {
+			return nil, fmt.Errorf("%s: %v", f, err)
+		}
+		es = append(es, e)
+	}
+	if len(es) == 0 {
+		return nil, fmt.Errorf("no harness/*/engine.json found under %s", verifDir)
 	}
 	return es, nil
 }
@@ -232,11 +242,14 @@ func applyPatchToShadow(patch, dir string) (map[string]string, error) {
 	}
 	files := map[string]bool{}
 	for _, l := range strings.Split(string(pb), "\n") {
-		if strings.HasPrefix(l, "+++ b/") {
-			files[strings.TrimPrefix(l, "+++ b/")] = true
-		}
-		if strings.HasPrefix(l, "--- a/") {
-			files[strings.TrimPrefix(l, "--- a/")] = true
+		for _, pre := range []string{"+++ b/", "--- a/"} {
+			if strings.HasPrefix(l, pre) {
+				f := strings.TrimPrefix(l, pre)
+				if i := strings.IndexAny(f, "\t"); i >= 0 {
+					f = f[:i]
+				}
+				files[strings.TrimSpace(f)] = true
+			}
 		}
 	}
 	shadow := map[string]string{}
